@@ -691,6 +691,39 @@ Proof.
   - intros x Hx. apply in_map_iff in Hx. destruct Hx as [y [<- _]]. reflexivity.
 Qed.
 
+(* [served]: some loader of the list holds the name (what if_exists asks before it swallows error 4) *)
+Lemma served_spec : forall ls path, served ls path = existsb (loader_has (loader_name path)) ls.
+Proof. reflexivity. Qed.
+
+Lemma served_false_iff : forall ls path,
+  served ls path = false <-> (forall l, In l ls -> assoc_get (loader_name path) (l_files l) = None).
+Proof.
+  intros ls path. rewrite served_spec. induction ls as [|l rest IH]; cbn [existsb].
+  - split; [intros _ x []|reflexivity].
+  - rewrite Bool.orb_false_iff, IH. unfold loader_has. split.
+    + intros [H1 H2] x [<-|Hx]; [|apply H2; exact Hx].
+      destruct (assoc_get (loader_name path) (l_files l)); [discriminate H1|reflexivity].
+    + intros H. split.
+      * rewrite (H l (or_introl eq_refl)). reflexivity.
+      * intros x Hx. apply H. right. exact Hx.
+Qed.
+
+Lemma served_true_iff : forall ls path,
+  served ls path = true <-> exists l c, In l ls /\ assoc_get (loader_name path) (l_files l) = Some c.
+Proof.
+  intros ls path. rewrite served_spec, existsb_exists. unfold loader_has. split.
+  - intros [l [Hl H]]. destruct (assoc_get (loader_name path) (l_files l)) as [c|] eqn:E; [|discriminate H].
+    exists l, c. split; [exact Hl|exact E].
+  - intros [l [c [Hl H]]]. exists l. split; [exact Hl|]. rewrite H. reflexivity.
+Qed.
+
+(* a name is served exactly when a fetch of it finds a content *)
+Lemma served_false_fetch_none : forall ls idx path g,
+  served ls path = false <-> fst (resolve_template ls idx path g) = None.
+Proof.
+  intros ls idx path g. rewrite served_false_iff. symmetry. apply resolve_template_none.
+Qed.
+
 Section Fetch.
   Variable se : senv.
 
@@ -945,7 +978,7 @@ Section Include.
                               match compile_file se f iname (ms_g st2) with
                               | Ok (t, g') => exec_template se globals f (mkM (ms_frames st2) (ms_nodes st2) g') t ictx
                               | Err 4 =>
-                                  if ifexists
+                                  if ifexists && negb (served (se_loaders se) iname)
                                   then xok [] (mkM (ms_frames st2) (ms_nodes st2) (log_misses (se_loaders se) iname (ms_g st2)))
                                   else ([], Err 4)
                               | other => xfail [] other
@@ -998,13 +1031,32 @@ Section Include.
     f_chain fr = root :: rest ->
     let iname := resolve_filename (tpl_is_string root) (tpl_name root) (c :: fn) in
     compile_file se f iname (ms_g st2) = Err 4 ->
+    served (se_loaders se) iname = false ->
     exec_node se globals (S f) st (NInclude None (Some fe) pairs only ifx) =
       if ifx then xok [] (mkM (ms_frames st2) (ms_nodes st2) (log_misses (se_loaders se) iname (ms_g st2)))
       else ([], Err 4).
   Proof.
-    intros f st fr fe pairs only ifx vals st1 fv st2 c fn root rest Ht Hp He Hs Hc iname Hcf.
-    rewrite exec_node_S_include, Ht. cbv zeta. rewrite Hp, He, Hs, Hc. cbn [hd]. fold iname. rewrite Hcf.
-    reflexivity.
+    intros f st fr fe pairs only ifx vals st1 fv st2 c fn root rest Ht Hp He Hs Hc iname Hcf Hsv.
+    rewrite exec_node_S_include, Ht. cbv zeta. rewrite Hp, He, Hs, Hc. cbn [hd]. fold iname. rewrite Hcf, Hsv.
+    rewrite Bool.andb_true_r. reflexivity.
+  Qed.
+
+  (* ... but when some loader HAS the name and compiling it fails with error 4 (it refers, further
+     down, to a file that is missing), the error is not swallowed: if_exists or not, error 4 *)
+  Lemma include_lazy_served_error : forall f st fr fe pairs only ifx vals st1 fv st2 c fn root rest,
+    top_frame st = Ok fr ->
+    eval_pairs se globals f st pairs = Ok (vals, st1) ->
+    eval se globals f st1 fe = Ok (fv, st2) ->
+    to_string (vv fv) = Some (c :: fn) ->
+    f_chain fr = root :: rest ->
+    let iname := resolve_filename (tpl_is_string root) (tpl_name root) (c :: fn) in
+    served (se_loaders se) iname = true ->
+    compile_file se f iname (ms_g st2) = Err 4 ->
+    exec_node se globals (S f) st (NInclude None (Some fe) pairs only ifx) = ([], Err 4).
+  Proof.
+    intros f st fr fe pairs only ifx vals st1 fv st2 c fn root rest Ht Hp He Hs Hc iname Hsv Hcf.
+    rewrite exec_node_S_include, Ht. cbv zeta. rewrite Hp, He, Hs, Hc. cbn [hd]. fold iname. rewrite Hcf, Hsv.
+    rewrite Bool.andb_false_r. reflexivity.
   Qed.
 
   Lemma include_empty_name : forall f st fr fe pairs only ifx vals st1 fv st2,
@@ -1033,7 +1085,7 @@ Section Include.
       let '(ifexists, rest) := match match_ident_val rest0 kw_if_exists with Some x => (true, x) | None => (false, rest0) end in
       let iname := resolve_filename (t_isstr tst) (t_name tst) fname in
       match compile_file se f iname g with
-      | Err 4 => if ifexists then Ok (NIncludeEmpty, ts, (tst, log_misses (se_loaders se) iname g)) else Err 4
+      | Err 4 => if ifexists && negb (served (se_loaders se) iname) then Ok (NIncludeEmpty, ts, (tst, log_misses (se_loaders se) iname g)) else Err 4
       | Ok (itpl, g1) =>
           do '(pairs, only, rest') <-
             (match match_ident_val rest kw_with with
@@ -1057,7 +1109,7 @@ Section Include.
       let '(ifexists, rest) := match match_ident_val rest0 kw_if_exists with Some x => (true, x) | None => (false, rest0) end in
       let iname := resolve_filename (t_isstr tst) (t_name tst) fname in
       match compile_file se f iname g with
-      | Err 4 => if ifexists then Ok (NIncludeEmpty, ts, (tst, log_misses (se_loaders se) iname g)) else Err 4
+      | Err 4 => if ifexists && negb (served (se_loaders se) iname) then Ok (NIncludeEmpty, ts, (tst, log_misses (se_loaders se) iname g)) else Err 4
       | Ok (itpl, g1) =>
           do '(pairs, only, rest') <-
             (match match_ident_val rest kw_with with
@@ -1150,7 +1202,7 @@ Section OtherTags.
            let '(ifexists, rest) := match match_ident_val rest0 kw_if_exists with Some x => (true, x) | None => (false, rest0) end in
            let iname := resolve_filename (t_isstr tst) (t_name tst) fname in
            match compile_file se f iname g with
-           | Err 4 => if ifexists then Ok (NIncludeEmpty, ts, (tst, log_misses (se_loaders se) iname g)) else Err 4
+           | Err 4 => if ifexists && negb (served (se_loaders se) iname) then Ok (NIncludeEmpty, ts, (tst, log_misses (se_loaders se) iname g)) else Err 4
            | Ok (itpl, g1) =>
                do '(pairs, only, rest') <-
                  (match match_ident_val rest kw_with with
@@ -1193,6 +1245,7 @@ Section OtherTags.
   Lemma include_static_missing : forall f level args tst g ts fname rest0,
     match_string args = Some (fname, rest0) ->
     compile_file se f (resolve_filename (t_isstr tst) (t_name tst) fname) g = Err 4 ->
+    served (se_loaders se) (resolve_filename (t_isstr tst) (t_name tst) fname) = false ->
     tag_parser se (S f) level tagIncludeParser args (tst, g) ts =
       match match_ident_val rest0 kw_if_exists with
       | Some _ => Ok (NIncludeEmpty, ts,
@@ -1200,9 +1253,22 @@ Section OtherTags.
       | None => Err 4
       end.
   Proof.
-    intros f level args tst g ts fname rest0 Hm Hc.
+    intros f level args tst g ts fname rest0 Hm Hc Hsv.
     rewrite (tag_parser_S_include_static se f level args tst g ts fname rest0 Hm).
-    destruct (match_ident_val rest0 kw_if_exists); cbv zeta; rewrite Hc; reflexivity.
+    destruct (match_ident_val rest0 kw_if_exists); cbv zeta; rewrite Hc, Hsv; reflexivity.
+  Qed.
+
+  (* a literal include of a name that some loader HAS and whose compilation fails with error 4
+     (a file it refers to is missing): error 4, with or without if_exists *)
+  Lemma include_static_served_error : forall f level args tst g ts fname rest0,
+    match_string args = Some (fname, rest0) ->
+    served (se_loaders se) (resolve_filename (t_isstr tst) (t_name tst) fname) = true ->
+    compile_file se f (resolve_filename (t_isstr tst) (t_name tst) fname) g = Err 4 ->
+    tag_parser se (S f) level tagIncludeParser args (tst, g) ts = Err 4.
+  Proof.
+    intros f level args tst g ts fname rest0 Hm Hsv Hc.
+    rewrite (tag_parser_S_include_static se f level args tst g ts fname rest0 Hm).
+    destruct (match_ident_val rest0 kw_if_exists); cbv zeta; rewrite Hc, Hsv; reflexivity.
   Qed.
 
   (* a literal include that is found carries the template compiled from exactly that name *)
@@ -2160,7 +2226,7 @@ Section ParseUnfold.
               let '(ifexists, rest) := match match_ident_val rest0 [105; 102; 95; 101; 120; 105; 115; 116; 115] (* if_exists *) with Some x => (true, x) | None => (false, rest0) end in
               let iname := resolve_filename (t_isstr tst) (t_name tst) fname in
               match compile_file f iname g with
-              | Err 4 => if ifexists then Ok (NIncludeEmpty, ts, (tst, log_misses (se_loaders se) iname g)) else Err 4
+              | Err 4 => if ifexists && negb (served (se_loaders se) iname) then Ok (NIncludeEmpty, ts, (tst, log_misses (se_loaders se) iname g)) else Err 4
               | Ok (itpl, g1) =>
                   do '(pairs, only, rest') <-
                     (match match_ident_val rest [119; 105; 116; 104] (* with *) with
